@@ -551,6 +551,60 @@ def settings_stream(ctx, rng, count, given=None):
     return problems
 
 
+def equal_atoms_stream(ctx, rng, count):
+    """constraints with SEPARATELY BUILT, equal nonlinear atoms (the same atom over the same argument in two constraints), one of them compiled
+    alone first, then both in one model in either order: value and size of the model must be those of a freshly built copy"""
+    import sageopt.coniclifts as cl
+    from sageopt.coniclifts.operators.abs import abs as cl_abs
+    out = []
+
+    def model(kind, t, b1, b2):
+        x = cl.Variable(shape=(2,), name='eqat_%d_%d' % (getattr(ctx, 'seed', 0), t))
+        if kind == 'exp':
+            mk = lambda: cl.weighted_sum_exp(np.array([1.0, 1.0]), x)     # noqa: E731
+        elif kind == 'norm':
+            mk = lambda: cl.vector2norm(x)                                # noqa: E731
+        else:
+            mk = lambda: cl.sum(cl_abs(x))                                # noqa: E731
+        return x, [mk() <= b1, mk() <= b2]
+
+    for t in range(count):
+        kind = rng.choice(['exp', 'norm', 'abs'])
+        b1, b2 = sorted(rng.sample([1.0, 2.0, 3.0, 5.0, 8.0], 2))
+        first = rng.choice([0, 1])                 # which constraint is compiled alone beforehand
+        order = rng.choice([[0, 1], [1, 0]])
+        how = rng.choice(['compile', 'solve'])
+        cvec = np.array([float(rng.choice([1, 2])), float(rng.choice([1, 3]))])
+
+        def run_(pre):
+            x, cons = model(kind, t, b1, b2)
+            if pre:
+                if how == 'compile':
+                    cl.compile_constrained_system([cons[first]])
+                else:
+                    cl.Problem(cl.MAX, cvec @ x, [cons[first]]).solve(verbose=False)
+            prob = cl.Problem(cl.MAX, cvec @ x, [cons[i] for i in order])
+            st_, val = prob.solve(verbose=False)
+            return st_, float(val), tuple(prob.A.shape)
+        rep = {'stream': 'equal-atoms', 'kind': kind, 'bounds': [b1, b2], 'first': first, 'order': order, 'how': how, 'c': cvec.tolist()}
+        ctx.case(rep, nontrivial=True)
+        ctx.count('stream:equal-atoms')
+        try:
+            got, want = run_(True), run_(False)
+        except Exception as e:  # noqa: BLE001
+            out.append(('two constraints with equal atoms (%s <= %g, <= %g): %s raised after one of them had been compiled alone'
+                        % (kind, b1, b2, type(e).__name__), rep))
+            continue
+        if got[0] != 'solved' or want[0] != 'solved':
+            ctx.incon('equal-atoms: status %s / %s' % (got[0], want[0]))
+            continue
+        if abs(got[1] - want[1]) > 1e-5 * max(1.0, abs(want[1])) or got[2] != want[2]:
+            out.append(('after constraint #%d (%s(x) <= %g) was %s alone, the model of both constraints (order %s) has value %.8g and a %s system; a '
+                        'freshly built copy has value %.8g and a %s system' % (first, kind, [b1, b2][first], 'compiled' if how == 'compile' else 'solved',
+                                                                                 order, got[1], got[2], want[1], want[2]), rep))
+    return out
+
+
 def run(ctx):
     rng = ctx.rng
     ctx.lean = common.lean_check('C11')
@@ -611,6 +665,7 @@ def run(ctx):
             ctx.traces_validated += 1
     all_problems += settings_stream(ctx, rng, 30 if quick else 300)
     all_problems += sage_stream(ctx, rng, 12 if quick else 100)
+    all_problems += equal_atoms_stream(ctx, rng, 12 if quick else 100)
     for what, rep in all_problems:
         tags = []
         ctx.violation('history: ' + what, rep, tags=tags)
